@@ -184,6 +184,21 @@ pub fn from_type_ids(type_ids: Vec<usize>) -> Type {
     }
 }
 
+/// Enclosing recursion boundaries (unions and function types) of the two operands of a type
+/// comparison, innermost last. `Cycle(n)` on the left is resolved through `self_side`, on the
+/// right through `pattern_side`; a contravariant position swaps the two.
+#[derive(Default)]
+struct TypeStacks {
+    self_side: Vec<usize>,
+    pattern_side: Vec<usize>,
+}
+
+impl TypeStacks {
+    fn swap(&mut self) {
+        std::mem::swap(&mut self.self_side, &mut self.pattern_side);
+    }
+}
+
 /// Mode for handling unions in type compatibility checks.
 #[derive(Clone, Copy, PartialEq, Eq)]
 enum UnionMode {
@@ -203,7 +218,7 @@ enum UnionMode {
 /// This is used for type checking (can I assign this value to this variable?).
 pub fn is_compatible<T: TypeLookup>(self_id: usize, pattern_id: usize, lookup: &T) -> bool {
     let mut assumptions = HashSet::new();
-    let mut type_stack = Vec::new();
+    let mut type_stack = TypeStacks::default();
     check_type_relation(
         self_id,
         pattern_id,
@@ -222,7 +237,7 @@ pub fn is_compatible<T: TypeLookup>(self_id: usize, pattern_id: usize, lookup: &
 /// This is used for pattern matching (could this value possibly match this pattern?).
 pub fn types_overlap<T: TypeLookup>(self_id: usize, pattern_id: usize, lookup: &T) -> bool {
     let mut assumptions = HashSet::new();
-    let mut type_stack = Vec::new();
+    let mut type_stack = TypeStacks::default();
     check_type_relation(
         self_id,
         pattern_id,
@@ -248,7 +263,7 @@ fn check_type_relation<T: TypeLookup>(
     lookup: &T,
     mode: UnionMode,
     assumptions: &mut HashSet<(usize, usize)>,
-    type_stack: &mut Vec<usize>,
+    type_stack: &mut TypeStacks,
 ) -> bool {
     // Fast path: same ID always satisfies the relation
     if self_id == pattern_id {
@@ -291,13 +306,14 @@ fn check_type_relation<T: TypeLookup>(
         // When both are cycles with same depth, they refer to the same recursive type
         (Type::Cycle(d1), Type::Cycle(d2)) if d1 == d2 => true,
 
-        // Handle cycles by looking up the type in the stack
+        // Handle cycles by looking up the type in the stack of its own side
         (Type::Cycle(depth), _) => {
-            if type_stack.len() < *depth {
+            let stack = &type_stack.self_side;
+            if stack.len() < *depth {
                 return true; // Coinductive reasoning
             }
-            let lookup_index = type_stack.len() - *depth;
-            if let Some(&stack_id) = type_stack.get(lookup_index) {
+            let lookup_index = stack.len() - *depth;
+            if let Some(&stack_id) = stack.get(lookup_index) {
                 check_type_relation(stack_id, pattern_id, lookup, mode, assumptions, type_stack)
             } else {
                 true
@@ -305,11 +321,12 @@ fn check_type_relation<T: TypeLookup>(
         }
 
         (_, Type::Cycle(depth)) => {
-            if type_stack.len() < *depth {
+            let stack = &type_stack.pattern_side;
+            if stack.len() < *depth {
                 return true;
             }
-            let lookup_index = type_stack.len() - *depth;
-            if let Some(&stack_id) = type_stack.get(lookup_index) {
+            let lookup_index = stack.len() - *depth;
+            if let Some(&stack_id) = stack.get(lookup_index) {
                 check_type_relation(self_id, stack_id, lookup, mode, assumptions, type_stack)
             } else {
                 true
@@ -324,6 +341,10 @@ fn check_type_relation<T: TypeLookup>(
             let saved = assumptions.clone();
             assumptions.insert(key);
 
+            let already_on_stack = type_stack.self_side.contains(&self_id);
+            if !already_on_stack {
+                type_stack.self_side.push(self_id);
+            }
             let result = match mode {
                 UnionMode::All => variants.iter().all(|&variant_id| {
                     check_type_relation(
@@ -346,6 +367,9 @@ fn check_type_relation<T: TypeLookup>(
                     )
                 }),
             };
+            if !already_on_stack {
+                type_stack.self_side.pop();
+            }
             if !result {
                 *assumptions = saved;
             }
@@ -361,15 +385,15 @@ fn check_type_relation<T: TypeLookup>(
             let saved = assumptions.clone();
             assumptions.insert(key);
 
-            let already_on_stack = type_stack.contains(&pattern_id);
+            let already_on_stack = type_stack.pattern_side.contains(&pattern_id);
             if !already_on_stack {
-                type_stack.push(pattern_id);
+                type_stack.pattern_side.push(pattern_id);
             }
             let result = variants.iter().any(|&variant_id| {
                 check_type_relation(self_id, variant_id, lookup, mode, assumptions, type_stack)
             });
             if !already_on_stack {
-                type_stack.pop();
+                type_stack.pattern_side.pop();
             }
             if !result {
                 *assumptions = saved;
@@ -452,7 +476,11 @@ fn check_type_relation<T: TypeLookup>(
         // Partial vs concrete tuple: never assignable (the partial also holds wider tuples), but
         // the two overlap exactly when the tuple overlaps the partial.
         (Type::Partial { .. }, Type::Tuple(_)) if mode == UnionMode::Any => {
-            check_type_relation(pattern_id, self_id, lookup, mode, assumptions, type_stack)
+            type_stack.swap();
+            let result =
+                check_type_relation(pattern_id, self_id, lookup, mode, assumptions, type_stack);
+            type_stack.swap();
+            result
         }
 
         // Partial vs partial - check structural compatibility
@@ -539,22 +567,20 @@ fn check_type_relation<T: TypeLookup>(
             let saved = assumptions.clone();
             assumptions.insert(key);
 
-            let already_on_stack = type_stack.contains(&pattern_id);
-            if !already_on_stack {
-                type_stack.push(pattern_id);
+            let pattern_on_stack = type_stack.pattern_side.contains(&pattern_id);
+            if !pattern_on_stack {
+                type_stack.pattern_side.push(pattern_id);
+            }
+            let self_on_stack = type_stack.self_side.contains(&self_id);
+            if !self_on_stack {
+                type_stack.self_side.push(self_id);
             }
 
-            // Parameters are contravariant, results are covariant, receive is contravariant
-            let result =
+            // Parameters are contravariant, results are covariant, receive is contravariant.
+            // In a contravariant position the operands trade places, and so do their stacks.
+            type_stack.swap();
+            let inputs_ok =
                 check_type_relation(*param2, *param1, lookup, mode, assumptions, type_stack)
-                    && check_type_relation(
-                        *result1,
-                        *result2,
-                        lookup,
-                        mode,
-                        assumptions,
-                        type_stack,
-                    )
                     && check_type_relation(
                         *receive2,
                         *receive1,
@@ -563,9 +589,15 @@ fn check_type_relation<T: TypeLookup>(
                         assumptions,
                         type_stack,
                     );
+            type_stack.swap();
+            let result = inputs_ok
+                && check_type_relation(*result1, *result2, lookup, mode, assumptions, type_stack);
 
-            if !already_on_stack {
-                type_stack.pop();
+            if !self_on_stack {
+                type_stack.self_side.pop();
+            }
+            if !pattern_on_stack {
+                type_stack.pattern_side.pop();
             }
             if !result {
                 *assumptions = saved;
